@@ -92,12 +92,12 @@ class UnifyingDomain(Registry):
     def is_packet_compat(self, packet) -> bool:
         """Determine if a packet is an ESB packet.
         """
-        return isinstance(packet.metadata, UnifyingMetadata)
+        return isinstance(getattr(packet, "metadata", None), UnifyingMetadata)
 
     def convert_packet(self, packet) -> HubMessage:
         """Convert an ESB packet to SendPdu or SendBlePdu message.
         """
-        if isinstance(packet.metadata, UnifyingMetadata):
+        if isinstance(getattr(packet, "metadata", None), UnifyingMetadata):
             # Retransmission count is a sending option the connector may have
             # attached to the packet metadata
             retr_count = getattr(packet.metadata, "retransmission_count", None)
